@@ -35,6 +35,10 @@ let parse_vop (t : string) : vop option =
   | ["new"; c] -> Some (VNew (ni (int_of_string c)))
   | ["newn"; n; x] -> Some (VNewN (ni (int_of_string n), ni (int_of_string x)))
   | ["newr"; l] -> Some (VNewR (nat_list l))
+  | ["insa"; p; n; i] -> Some (VInsA (ni (int_of_string p), ni (int_of_string n), ni (int_of_string i)))
+  | ["rsza"; n; i] -> Some (VResizeA (ni (int_of_string n), ni (int_of_string i)))
+  | ["pba"; i] -> Some (VPushA (ni (int_of_string i)))
+  | ["asgn"; n; x] -> Some (VAssignN (ni (int_of_string n), ni (int_of_string x)))
   | _ -> None
 
 let show_ret = function
@@ -45,9 +49,7 @@ let show_vobs = function
   | Some (((r, n), c), d) ->
       Printf.sprintf "%s/%d/%d/%s" (show_ret r) (int_of_nat n) (int_of_nat c) (show_list d)
 
-(* vector cases: stepwise so that the aliasing insert "insa:p:n:i" (the value argument is a reference
-   to element i of the vector itself; outside the by-value op language) can be applied through
-   insert_fill_alias; an op the model does not know ends the model's trace with "?" *)
+(* vector cases; an op the model does not know ends the model's trace with "?" *)
 let run_vec id toks =
   let obs_of s r = let v = cur_vec s in show_vobs (Some (((r, vsize v), v.vcap), v.vdata)) in
   let rec go s acc = function
@@ -58,13 +60,7 @@ let run_vec id toks =
          (match vstep s o with
           | None -> go s ("!" :: acc) rest
           | Some (s', r) -> go s' (obs_of s' r :: acc) rest)
-       | None ->
-         (match String.split_on_char ':' t with
-          | ["insa"; p; n; i] ->
-            (match insert_fill_alias (cur_vec s) (ni (int_of_string p)) (ni (int_of_string n)) (ni (int_of_string i)) with
-             | Some v -> let s' = set_cur s v in go s' (obs_of s' RNone :: acc) rest
-             | None -> List.rev ("?" :: acc))
-          | _ -> List.rev ("?" :: acc))) in
+       | None -> List.rev ("?" :: acc)) in
   Printf.printf "%s %s\n" id (String.concat "|" (go vinit [] toks))
 
 let parse_mop (t : string) : mop option =
@@ -133,7 +129,10 @@ let parse_sop (t : string) : sop option =
   | ["ernpos"; p] -> Some (SEraseNpos (n p))
   | ["erit"; a; b] -> Some (SEraseIt (n a, n b))
   | ["erit1"; p] -> Some (SEraseIt1 (n p))
-  | ["rsz"; k; c] -> Some (SResize (n k, n c))
+  | ["rsz"; k; c] | ["rszgrow"; k; c] -> Some (SResize (n k, n c))
+  | ["appsubnpos"; p] -> Some (SAppSubNpos (n p))
+  | ["substrnpos"; p] -> Some (SSubstrNpos (n p))
+  | ["eritempty"] -> Some (SEraseIt (O, O))
   | ["rsz0"; k] -> Some (SResize0 (n k))
   | ["rsv"; k] -> Some (SReserve (n k))
   | ["clr"] -> Some SClear
